@@ -112,10 +112,16 @@ class C02(Check):
                     k = rng.randrange(0, ncfg + 1)
                     xs = kepler.propagate(np.array(s["state"]["position"] + s["state"]["velocity"], dtype=float), k * step)
                     sun = visibility.sun_position(S + dt.timedelta(seconds=k * step))
-                    u = (sun - xs[:3]) / np.linalg.norm(sun - xs[:3]) * rng.choice([1.0, -1.0])
+                    if rng.random() < 0.6:
+                        u = (sun - xs[:3]) / np.linalg.norm(sun - xs[:3]) * rng.choice([1.0, -1.0])
+                        ang = math.radians(rng.choice([rng.uniform(0, 14), rng.uniform(14, 16), rng.uniform(16, 30)]))
+                    else:
+                        # line of sight near the galactic centre (6 deg exclusion cone): inside, on the edge, just outside - and far enough off that
+                        # the target's *geocentric* direction can be inside the cone while the line of sight is not
+                        u = np.array([math.cos(visibility.GAL_DEC) * math.cos(visibility.GAL_RA), math.cos(visibility.GAL_DEC) * math.sin(visibility.GAL_RA), math.sin(visibility.GAL_DEC)])
+                        ang = math.radians(rng.choice([rng.uniform(0, 5.5), rng.uniform(5.5, 6.5), rng.uniform(6.5, 12), rng.uniform(12, 40)]))
                     perp = np.cross(u, np.array([0.3, 0.5, 0.8]))
                     perp /= np.linalg.norm(perp)
-                    ang = math.radians(rng.choice([rng.uniform(0, 14), rng.uniform(14, 16), rng.uniform(16, 30)]))
                     d = math.cos(ang) * u + math.sin(ang) * perp
                     xt = np.concatenate([xs[:3] + d * rng.uniform(300, 4000), xs[3:]])
                     r = float(np.linalg.norm(xt[:3]))
